@@ -1,0 +1,48 @@
+//go:build verif
+
+package multicast
+
+import (
+	"github.com/gauss-project/aurorafs/pkg/boson"
+	"github.com/gauss-project/aurorafs/pkg/multicast/model"
+	"github.com/gogf/gf/v2/os/gcache"
+)
+
+// Verification hooks (add-only, compiled only with -tags verif).
+
+// VerifSetCache replaces the package-level de-duplication cache (a process
+// global that every simulated node of one process would share, expired by gogf
+// goroutines running on real time) and returns the previous one.
+func VerifSetCache(c *gcache.Cache) (old *gcache.Cache) {
+	old = cache
+	cache = c
+	return old
+}
+
+// VerifGroupLists is a snapshot of the three peer lists of one group.
+type VerifGroupLists struct {
+	GID       boson.Address
+	GType     model.GType
+	Connected []boson.Address
+	Keep      []boson.Address
+	Known     []boson.Address
+}
+
+// VerifGroups returns the peer lists of every group the service holds.
+func (s *Service) VerifGroups() (out []VerifGroupLists) {
+	for _, g := range s.getGroupAll() {
+		g.mux.RLock()
+		out = append(out, VerifGroupLists{
+			GID:       g.gid,
+			GType:     g.option.GType,
+			Connected: g.connectedPeers.BinPeers(0),
+			Keep:      g.keepPeers.BinPeers(0),
+			Known:     g.knownPeers.BinPeers(0),
+		})
+		g.mux.RUnlock()
+	}
+	return out
+}
+
+// VerifMulticastWindow returns the de-duplication window of multicast messages.
+func VerifMulticastWindow() int64 { return int64(multicastMsgCache) }
